@@ -20,3 +20,25 @@ Theorem C02_reduced_certificate : forall (Q : Type) (E : EqDec Q) (C : Canon Q) 
   (forall p q, In p (e_states B) -> In q (e_states B) -> p <> q -> ~ lang_eq (reroot B p) (reroot B q)).
 Proof. exact (@is_reduced_b_sound). Qed.
 Print Assumptions C02_reduced_certificate.
+
+(* the exploration behind is_equivalent_to's oracle finishes (automata with numbered states; fuel n with 3 * 2^(|A|+|B|) < 2^n) *)
+From Coq Require Import Arith.
+From PFL Require Import Proofs.Totality.
+Theorem C02_equiv_total : forall (A B : enfa N), wf A -> wf B ->
+  forall n, (3 * (2 ^ length (e_states A) * 2 ^ length (e_states B)) < 2 ^ n)%nat -> exists b, enfa_equiv A B n = Some b.
+Proof. exact enfa_equiv_total. Qed.
+Print Assumptions C02_equiv_total.
+
+(* uniqueness of the minimal automaton: two deterministic, reduced, trim automata with the same language are isomorphic (the states
+   reached by the same word correspond); with the instance certificates for "reduced" and "trim" this backs the isomorphism
+   verdict on the results of minimize() for equivalent inputs *)
+From PFL Require Import Oracle.EnfaMinimal Proofs.EnfaIso.
+Theorem C02_minimal_unique : forall (Q1 Q2 : Type) (E1 : EqDec Q1) (E2 : EqDec Q2) (B1 : enfa Q1) (B2 : enfa Q2),
+  is_dfa B1 -> is_dfa B2 -> wf B1 -> wf B2 -> reduced B1 -> reduced B2 -> trim B1 -> trim B2 -> lang_eq B1 B2 ->
+  isomorphism B1 B2 (Rel B1 B2).
+Proof. exact (@minimal_dfa_unique). Qed.
+Print Assumptions C02_minimal_unique.
+
+Theorem C02_trim_certificate : forall (Q : Type) (E : EqDec Q) (B : enfa Q), trim_b B = true -> trim B.
+Proof. exact (@trim_b_sound). Qed.
+Print Assumptions C02_trim_certificate.
